@@ -12,6 +12,8 @@ pub struct Cfg {
     /// true when run as a sub-workload of C18 (reduced sizes; only monitor hits matter)
     pub as_c18: bool,
     pub release: bool,
+    /// this build is not the primary one of a quick run (exhaustive sweeps may be thinned)
+    pub secondary: bool,
 }
 
 impl Cfg {
